@@ -182,7 +182,7 @@ def run(tier, t0):
     for p in runner.parallel("vf.props.c04", "ball_work", [(s, seeds, runner.SEED) for s in range(runner.NPROC)]):
         part.merge(p)
     from ..fuzz import driver
-    fuzz_note = driver.campaign(part, "accept", runs=240000 if tier == "quick" else 4000000)
+    fuzz_note = driver.campaign(part, "accept", runs=240000 if tier == "quick" else 2000000)
     rule = ("strings from: valid vectors (any spelling), 1..3 stacked mutation operators (char insert/delete/replace, "
             "field drop/duplicate/swap/transplant/empty, mandatory-field drop, prefix surgery, case, foreign values), "
             "cross-version vectors, arbitrary text; plus complete one-edit neighbourhoods of seed vectors (shortest, "
